@@ -22,6 +22,7 @@ import (
 	"verif/internal/core"
 	"verif/internal/sched"
 	"verif/internal/tsdbhist"
+	"verif/props/c22/headdisk"
 )
 
 func init() {
@@ -140,12 +141,12 @@ func childMain(args []string) int {
 // ---------------------------------------------------------------- parent
 
 type ackLog struct {
-	acked    map[int]tsdbhist.AckRec
-	lastB    int // op index of the last B line (-1 none, 1<<30 = close)
-	lastA    int
-	errLine  string
-	closed   bool
-	inClose  bool
+	acked   map[int]tsdbhist.AckRec
+	lastB   int // op index of the last B line (-1 none, 1<<30 = close)
+	lastA   int
+	errLine string
+	closed  bool
+	inClose bool
 }
 
 func readAck(path string) ackLog {
@@ -409,7 +410,17 @@ func checkAfterCrash(c *core.Case, p program, dir, ackPath string, pt crashPoint
 			return
 		}
 		if diff := e.Check(nil); diff != "" {
-			c.Violatef("after-recovery-restart:"+classify(diff), "%s\nsecond reopen (after new appends and a clean close): %s\nstate:\n%s", what, diff, e.Diagnose())
+			kind := "after-recovery-restart:" + classify(diff)
+			// Known-finding predicate (the C22 defect): after the crash recovery a series ref was handed
+			// out a second time, visible on disk as one ref carrying two label sets in the WAL's
+			// series records; data stored under the old owner is then lost or mis-attributed.
+			if recs, _, err := headdisk.Scan(dir); err == nil {
+				if cl := headdisk.RefClashes(recs); len(cl) > 0 && strings.Contains(diff, "missing sample") {
+					kind = "acknowledged-sample-lost-after-series-ref-reissue"
+					diff += fmt.Sprintf(" [WAL series records give one ref to several label sets: %v]", cl)
+				}
+			}
+			c.Violatef(kind, "%s\nsecond reopen (after new appends and a clean close): %s\nstate:\n%s", what, diff, e.Diagnose())
 			return
 		}
 		reportKnown(c, e, what)
